@@ -7,7 +7,7 @@ def draws(s):
     return [s.next_float().hex(), s.next_int(0, 10 ** 6), s.next_float().hex()]
 
 
-def apply(cfg, order, history=False, reuse=False, late=False, via_info=False, custom=False, ddict=False):
+def apply(cfg, order, history=False, reuse=False, late=False, via_info=False, custom=False, ddict=False, refused=False):
     from pydsol.core.streams import MersenneTwister, SimpleStreamUpdater, StreamSeedUpdater
     streams = {}
     for name in order:
@@ -67,6 +67,24 @@ def apply(cfg, order, history=False, reuse=False, late=False, via_info=False, cu
         mine = Mine()
         up.set_fallback_stream_updater(mine)
         out["__fallback_getter_ok__"] = up.get_fallback_stream_updater() is mine
+    if refused and cfg["updater"] != "simple":
+        # the same updater refused updates before (a replication beyond a seed list; a chained table updater as fallback
+        # that refuses in turn): a refused update leaves nothing behind
+        refusals = 0
+        decoy = MersenneTwister(99)
+        for name in order:
+            try:
+                up.update_seed(name, decoy, 10 ** 6)
+            except Exception:
+                refusals += 1
+        default = up.get_fallback_stream_updater()
+        up.set_fallback_stream_updater(StreamSeedUpdater({"verif-unlisted": [5]}))
+        try:
+            up.update_seed("verif-unlisted", decoy, 3)
+        except Exception:
+            refusals += 1
+        up.set_fallback_stream_updater(default)
+        out["__refusals__"] = refusals
     if reuse:
         # the same updater object served other streams with the same names (other original seeds, another
         # replication number) before: an updater must not remember anything about streams it has seen
@@ -102,6 +120,8 @@ def main():
         if cfg["updater"] == "table":
             r["custom"] = apply(cfg, names, custom=True)
         r["ddict"] = apply(cfg, names, ddict=True) if cfg["updater"] == "table" else r["base"]
+        if cfg["updater"] == "table":
+            r["refused"] = apply(cfg, names, refused=True)
         if cfg["updater"] == "table":
             # what the fallback alone would do for every stream (oracle for unlisted streams)
             r["fallback"] = apply(dict(cfg, updater="simple"), names)
